@@ -12,6 +12,8 @@ VERIF = os.path.dirname(os.path.dirname(os.path.abspath(__file__)))
 REPO = os.environ.get('VERIF_REPO', '/repo')
 HDR = os.path.join(REPO, 'source', 'include', 'gch', 'small_vector.hpp')
 BUILD = os.path.join(VERIF, 'build', 'C19'); os.makedirs(BUILD, exist_ok=True)
+EVDIR = os.environ.get('VERIF_EVIDENCE_DIR') or os.path.join(VERIF, 'evidence')
+RPDIR = os.path.join(os.environ['VERIF_EVIDENCE_DIR'], 'replays') if os.environ.get('VERIF_EVIDENCE_DIR') else os.path.join(VERIF, 'replays')
 PID = 'C19'
 
 # ---------------------------------------------------------------- formula extraction (source -> z3)
@@ -237,7 +239,7 @@ def main():
         path = os.path.join(BUILD, 'cex.cpp'); open(path, 'w').write(prog)
         r = subprocess.run(['g++', '-std=c++17', '-fsyntax-only', '-I' + os.path.dirname(os.path.dirname(HDR)), path], stdout=subprocess.PIPE, stderr=subprocess.PIPE, text=True)
         return r.returncode != 0, path
-    os.makedirs(os.path.join(VERIF, 'replays'), exist_ok=True)
+    os.makedirs(RPDIR, exist_ok=True); os.makedirs(EVDIR, exist_ok=True)
     rc = 0
     for q, key in results:
         if q and q['result'] == 'sat':
@@ -247,11 +249,11 @@ def main():
             hit = [k for k in known if k[0] == key]
             if hit: known_hits.append(hit[0]); print('KNOWN-FINDING: property=C19 %s [%s]' % (hit[0][1], key))
             else:
-                path = os.path.join(VERIF, 'replays', 'C19_%s.json' % re.sub(r'\W', '_', key))
+                path = os.path.join(RPDIR, 'C19_%s.json' % re.sub(r'\W', '_', key))
                 json.dump({'property': 'C19', 'key': key, 'query': q, 'program': rep[1], 'how': 'g++ -std=c++17 -fsyntax-only -I/repo/source/include ' + rep[1]}, open(path, 'w'), indent=1)
                 print('VIOLATION property=C19 replay=%s' % path); print('  default_buffer_size violates the %s-byte rule (%s): %s' % (total, q['kind'], json.dumps(q['model']))); rc = 1
     for v in violations:
-        path = os.path.join(VERIF, 'replays', 'C19_layout_%d.json' % (abs(hash(json.dumps(v))) % 100000)); json.dump(v, open(path, 'w'), indent=1)
+        path = os.path.join(RPDIR, 'C19_layout_%d.json' % (abs(hash(json.dumps(v))) % 100000)); json.dump(v, open(path, 'w'), indent=1)
         print('VIOLATION property=C19 replay=%s' % path); print('  ' + v['msg'] + ' ' + json.dumps(v['cell'])); rc = 1
     for q in queries: print('  z3 %-7s %5.2fs  %s%s' % (q['result'], q['seconds'], q['query'], ('  e.g. ' + json.dumps(q['model'])) if 'model' in q else ''))
     for f in framework: print('FRAMEWORK-ERROR: C19: ' + f[:1500])
@@ -274,7 +276,7 @@ def main():
           'assumptions': ['Itanium C++ ABI on x86-64 (clang++-14 and g++ 12 agree with the model on every instantiation tried in this run)', 'z3 4.x bit-vector reasoning',
                           'allocator alignment is 1 (byte state) or 8 (pointer state) in the instantiations that validate the model'],
           'wall_s': round(wall, 1), 'violations': 1 if rc == 1 else 0}
-    json.dump(ev, open(os.path.join(VERIF, 'evidence', 'C19.json'), 'w'), indent=1)
+    json.dump(ev, open(os.path.join(EVDIR, 'C19.json'), 'w'), indent=1)
     print('[C19] %s: %d z3 queries, %d layout instantiations validated, %.0f s' % ('HELD' if rc == 0 else ('VIOLATED' if rc == 1 else 'ERROR'), len(queries), checked, wall))
     return rc
 
